@@ -49,3 +49,13 @@ Example C08_nd_ex :
   let index := [INone; ISlice None None (Some (-2)); IInt (-1)] in
   valid index (shape t) /\ ndx_getitem_user t index 0 = Done {| shape := [1; 2]%nat; data := [11; 3] |}.
 Proof. exact getitem_nd_ex. Qed.
+
+(* boolean mask arrays: x[mask] as lowered (Reshape to [-1] ++ shape[k:], flattened mask, Compress along axis 0) selects,
+   for every tensor of every rank and every mask of rank k with mask.shape == x.shape[:k], one block x[idx, ...] per true
+   position idx of the mask in row-major order — NumPy's result, shape (count,) ++ x.shape[k:] *)
+From ND Require Import Ndx.MaskIndex.
+Theorem C08_mask_indexing_is_numpy : forall (A : Type) (t : tensor A) (m : tensor bool) (d : A),
+  wf t -> wf m -> shape m = firstn (rank' m) (shape t) -> (size (skipn (rank' m) (shape t)) <> 0%nat \/ (rank' m < 2)%nat) ->
+  ndx_getitem_mask t m = Done (np_getitem_mask t m d).
+Proof. exact @getitem_mask_is_numpy. Qed.
+Print Assumptions C08_mask_indexing_is_numpy.
